@@ -24,12 +24,12 @@ PLAIN = {"force": False, "dry_run": False, "max_failures": None, "expression": "
 def tk(i, **kw):
     d = {"id": i, "module": 1, "deps": [], "prods": [], "mver": 0, "skip": False, "skipifs": [], "persist": False, "prio": 0,
          "marks": [], "attrs": [], "after_fn": [], "after_expr": None, "use_decorator": False,
-         "pdeps": [], "pprods": [], "is_gen": False, "clears": False, "two_stage": False, "pspell": {}}
+         "pdeps": [], "pprods": [], "is_gen": False, "clears": False, "two_stage": False, "pspell": {}, "after_ids": []}
     d.update(kw)
     return d
 
 
-def gen_project(rng):
+def gen_project(rng, p_after=0.35):
     """producer(s) fed by a count file, consumers and generators over the same or other patterns."""
     tasks = []
     sources = [101, 102]
@@ -66,6 +66,17 @@ def gen_project(rng):
     if rng.random() < 0.3:      # a consumer of a pattern nobody produces (files placed by the user)
         nid += 1
         tasks.append(tk(tid, pdeps=[9], prods=[nid]))
+    # `after`: a task waits for another one that has a product and reads nothing another task writes
+    if rng.random() < p_after:
+        # (not a producer of a pattern: its resolved files would become `after` edges as well, which the model leaves out)
+        ups = [u for u in tasks if u["prods"] and not u["is_gen"] and all(d < 110 for d in u["deps"]) and not u["pdeps"] and not u["pprods"]]
+        downs = [t for t in tasks if not t["is_gen"]]
+        if ups and downs:
+            u = rng.choice(ups)
+            t = rng.choice([x for x in downs if x["id"] != u["id"]] or [None])
+            if t is not None and not t.get("after_expr") and not (set(t["prods"]) & set(u["deps"])):
+                t["after_expr"] = f"t{u['id']}_"
+                t["after_ids"] = [u["id"]]
     # the same directory spelled in different ways by different tasks
     for t in tasks:
         for p in t["pdeps"] + t["pprods"]:
@@ -124,7 +135,8 @@ def gen_history(rng, idx, base, p_expr=0.12):
 
 
 def ptask_term(t, V, name=None):
-    base = C("mkTask", t["id"], V, t["deps"], t["prods"], [], Raw("None"), bool(t["skip"]), [], bool(t["persist"]), Zi(0),
+    ae = Some([ord(c) for c in t["after_expr"]]) if t.get("after_expr") else Raw("None")
+    base = C("mkTask", t["id"], V, t["deps"], t["prods"], [], ae, bool(t["skip"]), [], bool(t["persist"]), Zi(0),
              [[ord(c) for c in name]] if name else [], [[2]] if t.get("two_stage") else [])
     return C("mkPT", base, t["pdeps"], t["pprods"], bool(t["is_gen"]), bool(t["clears"]))
 
@@ -259,6 +271,9 @@ def reads_writes(tasks, ids):
     for t in tasks:
         reads[t["id"]] = set(t["deps"]) | {("pat", p) for p in t["pdeps"]}
         writes[t["id"]] = set(t["prods"]) | {("pat", p) for p in t["pprods"]}
+    for t in tasks:      # `after`: as if the task read the products of the task it waits for
+        for u in t.get("after_ids", []):
+            reads[t["id"]] |= writes.get(u, set())
     for i in ids:
         if 20000 <= i < 30000:
             k = i - 20000
